@@ -143,6 +143,8 @@ def gen_graph(c, gcfg, rng):
     states, edges, acttext = parse_gen(gen.out)
     if len(edges) < 1000 or len(states) < 100:
         raise vlib.Infra("too few transitions generated: %d states, %d transitions" % (len(states), len(edges)))
+    if len(states) != gen.distinct:
+        raise vlib.Infra("state keys are not unique (fingerprint collision?): %d keys for %d distinct states" % (len(states), gen.distinct))
     missing = {d for (_, _, d) in edges if d not in states} | {s for (s, _, _) in edges if s not in states}
     if missing:
         raise vlib.Infra("%d transition endpoints without a state line" % len(missing))
@@ -201,10 +203,10 @@ def run(c):
         c.notes.append("VERIF_C12_FAST=1: design-level TLC runs skipped")
     elif not thorough:
         res = vlib.tlc(SPEC_DIR, "MC_StateBuffer", "MC_StateBuffer.cfg", c.work, timeout=900)
-        c.require_ok(res, "StateBuffer design: mechanism refines reference (2 contracts, 1 key, 2 values, <=2 log entries, 2 snapshot levels)")
+        c.require_ok(res, "StateBuffer design: mechanism refines reference (1 account + 2 contracts, 1 key, 2 values, <=2 log entries, 2 snapshot levels)")
     else:
-        for cfg, what in (("MC_StateBuffer_big.cfg", "StateBuffer design, 3 log entries, 2 snapshot levels"),
-                          ("MC_StateBuffer_big2.cfg", "StateBuffer design, 2 keys, both initial tries"),
+        for cfg, what in (("MC_StateBuffer_big.cfg", "StateBuffer design, 2 contracts, <=3 log entries, 2 snapshot levels"),
+                          ("MC_StateBuffer_big2.cfg", "StateBuffer design, 2 keys per contract"),
                           ("MC_StateBuffer_big3.cfg", "StateBuffer design, 3 snapshot levels"),
                           ("MC_StateBuffer_big4.cfg", "StateBuffer design, two commit cycles on one StateDB")):
             res = vlib.tlc(SPEC_DIR, "MC_StateBuffer", cfg, c.work, timeout=2400)
@@ -214,8 +216,8 @@ def run(c):
     graphs = [gen_graph(c, cfg, rng) for cfg in gcfgs]
     rnd = dict(walks=64, ops=200, accts=3, ctrs=3, keys=4, vals=5, maxsnap=6, traced=12)
     if thorough:
-        rnd.update(walks=800, ops=300, traced=40)
-    inp = {"graphs": graphs, "salts": 2 if thorough else 1, "random": rnd}
+        rnd.update(walks=600, ops=300, traced=30)
+    inp = {"graphs": graphs, "salts": 1, "random": rnd}
     inpath = os.path.join(c.work, "sb_in.json")
     json.dump(inp, open(inpath, "w"))
     outpath = os.path.join(c.work, "sb_out.json")
